@@ -140,6 +140,7 @@ func registerSymAPI(e *Engine) {
 		}
 		if old, ok := eng.visited[key]; ok && old >= rem {
 			eng.visitedHits++
+			fr.ex.res.Pruned = true
 			return true
 		}
 		eng.visited[key] = rem
